@@ -56,7 +56,7 @@ def mk_device(kind, inp=None):
         return AnalogDevice
     if kind == "digital":
         return DigitalAnalogDevice
-    if kind in ("virt", "virt_nomod", "virt_maxseq", "virt_reuse"):
+    if kind in ("virt", "virt_nomod", "virt_maxseq", "virt_reuse", "virt_tightdmm"):
         mod = None if kind == "virt_nomod" else 20.0  # rise time 24 ns
         eom = None if mod is None else RydbergEOM(
             limiting_beam=RydbergBeam.RED, max_limiting_amp=30 * TWO_PI, intermediate_detuning=700 * TWO_PI,
@@ -76,7 +76,8 @@ def mk_device(kind, inp=None):
             ),
             channel_ids=("ryd_glob", "ryd_loc", "ram_loc", "ram_glob"),
             dmm_objects=(DMM(clock_period=4, min_duration=8, max_duration=10000, mod_bandwidth=mod,
-                             bottom_detuning=-2 * TWO_PI * 20, total_bottom_detuning=-2 * TWO_PI * 2000),),
+                             bottom_detuning=(-TWO_PI * 10 if kind == "virt_tightdmm" else -2 * TWO_PI * 20),
+                             total_bottom_detuning=(-TWO_PI * 15 if kind == "virt_tightdmm" else -2 * TWO_PI * 2000)),),
         )
     raise ValueError(kind)
 
